@@ -223,7 +223,7 @@ def parser_errors(chk, P):
         out0 = parse(P, "[Pair]\nA-B : as.zero\n")
         I2, cp2 = out0[3], out0[4]
         I2.ext_methods[("RawConfigParser", "get")] = lambda I_, inst, a, k, name=name: (_ for _ in ()).throw(RaiseSignal(M.cfg_exc(name), None))
-        rawinst = cp2.attrs["_config_parser"]
+        rawinst = I2.getattr(cp2, "raw_config_parser")
         out = outcome(lambda: I2.call(I2.getattr(rawinst, "get"), [Const("Pair"), Const("A-B")], {}))
         chk.ob("C16.E6", "configparser.%s raised while a value is read -> configuration error" % name, classify(P, out) == "config-error",
                site=raw.lookup("get").site() if raw.lookup("get") else None, found=classify(P, out), expect="config-error",
@@ -337,14 +337,22 @@ def raise_classes(chk, P):
                 continue
             r = P.resolve_expr(fi.module, target)
             ok = isinstance(r, ClassInfo) and r.is_subclass_of(cfg)
-            if not ok and isinstance(exc, ast.Call):
-                # raise helper(...): the helper is an exception factory when every value it returns is a
-                # ConfigurationException
-                ok = _factory_returns_cfg(P, fi, target, cfg, 3)
             why = None
             if not ok:
                 why = ALLOWED_RAISES.get((fi.module.name, fi.qualname, name))
                 ok = why is not None
+            is_class = isinstance(r, (ClassInfo, ExternalClass)) or type(r).__name__ == "External"
+            if not ok and isinstance(exc, ast.Call) and not is_class:
+                # raise helper(...): the helper is an exception factory when every value it returns is a
+                # ConfigurationException
+                ok = _factory_returns_cfg(P, fi, target, cfg, 3)
+                if not ok:
+                    # not visible in the helper's shape (e.g. a table of exception classes): evaluate the raised expression
+                    # abstractly for every exception class the enclosing handler can have caught
+                    verdict = _eval_raise(P, fi, node, cfg)
+                    if verdict is None:
+                        raise AnalysisError("%s line %d: cannot decide which exception '%s' constructs" % (fi.fq, node.lineno, ast.unparse(exc)[:60]))
+                    ok = verdict
             chk.ob("C16.E8", "%s raises %s%s" % (fi.qualname, name, " (allowed: %s)" % why if why else ""), ok, site=fi.site(node),
                    found="%s is not a ConfigurationException" % name if not ok else None, expect="ConfigurationException subclass",
                    key="C16.E8|%s|%s" % (fi.fq, name))
@@ -356,6 +364,79 @@ def raise_classes(chk, P):
             chk.ob("C16.E8", "exception class %s derives from ConfigurationException" % ci.name, ok, site="%s:%d %s" % (ci.module.relpath, ci.node.lineno, ci.name),
                    found=[getattr(c, "name", "?") for c in ci.mro()], expect="ConfigurationException in its bases", key="C16.E8|class|%s" % ci.name)
     return n
+
+
+def _eval_raise(P, fi, node, cfg):
+    """-> True / False / None (undecidable here).  Evaluates the expression of 'raise <expr>' with the function's parameters
+    and locals opaque and the handler variable bound, in turn, to an instance of every repository exception class the
+    enclosing 'except' clause catches."""
+    from ..symeval import Env
+    handler = None
+    def find(n, h):
+        nonlocal handler
+        for ch in ast.iter_child_nodes(n):
+            if ch is node:
+                handler = h
+                return True
+            if isinstance(ch, (ast.FunctionDef, ast.Lambda)) and ch is not fi.node:
+                continue
+            if find(ch, ch if isinstance(ch, ast.ExceptHandler) else h):
+                return True
+        return False
+    find(fi.node, None)
+    caught = [None]
+    if handler is not None and handler.name is not None and handler.type is not None:
+        caught = []
+        types = handler.type.elts if isinstance(handler.type, ast.Tuple) else [handler.type]
+        for t in types:
+            r = P.resolve_expr(fi.module, t)
+            if isinstance(r, ClassInfo):
+                caught.extend(P.subclasses(r))
+            else:
+                return None
+    verdicts = []
+    for c in caught:
+        I = W.make_interp(P)
+        env = Env(module=fi.module, label=fi.fq)
+        try:
+            a = fi.node.args
+            params = [x.arg for x in a.args + a.kwonlyargs]
+            for i, pn in enumerate(params):
+                if i == 0 and fi.cls is not None and not fi.is_staticmethod:
+                    env.vars[pn] = I.opaque_instance(fi.cls, ("param", pn))
+                else:
+                    env.vars[pn] = Opaque(("param", pn))
+            assigned = set()
+            for n in ast.walk(fi.node):
+                if isinstance(n, ast.Name) and isinstance(n.ctx, ast.Store):
+                    assigned.add(n.id)
+            for nm in assigned:
+                env.vars.setdefault(nm, Opaque(("local", nm)))
+            if c is not None:
+                env.vars[handler.name] = ExcV(ClassV(c), [Opaque(("exception-argument",))])
+            I.stack.append(env)
+            try:
+                v = I.eval(node.exc, env)
+            finally:
+                I.stack.pop()
+        except (AnalysisError, RaiseSignal, RecursionError):
+            return None
+        def leaves(x):
+            if isinstance(x, Phi):
+                return leaves(x.a) + leaves(x.b)
+            return [x]
+        for lf in leaves(v):
+            if isinstance(lf, ExcV) and isinstance(lf.cls, ClassV):
+                verdicts.append(lf.cls.ci.is_subclass_of(cfg))
+            elif isinstance(lf, ClassV):
+                verdicts.append(lf.ci.is_subclass_of(cfg))
+            elif isinstance(lf, ExcV):
+                verdicts.append(False)
+            else:
+                return None
+    if not verdicts:
+        return None
+    return all(verdicts)
 
 
 def _factory_returns_cfg(P, fi, target, cfg, depth):
